@@ -173,6 +173,11 @@ func RunDkgScenario(ctx context.Context, sc *DkgScenario, log *Log) error {
 		before := c.sessionProbeSnapshot(ctx, in, call.Account)
 		var cerr error
 		extra := Ev{}
+		// a caller waits for its answer: a message that is neither acted on nor refused within 30 s is recorded as unanswered, and the
+		// rest of the sequence is not sent (the goroutine that still works on it is left behind)
+		callDone := make(chan struct{})
+		go func() {
+		defer close(callDone)
 		_ = c.deliver(in, call.Msg, func() error {
 			switch call.Msg {
 			case "prepare":
@@ -215,6 +220,18 @@ func RunDkgScenario(ctx context.Context, sc *DkgScenario, log *Log) error {
 			}
 			return nil
 		})
+		}()
+		hungCall := false
+		select {
+		case <-callDone:
+		case <-time.After(30 * time.Second):
+			hungCall = true
+		}
+		if hungCall {
+			log.Emit(Ev{"ev": "Call", "i": i, "inst": call.Inst, "caller": call.Caller, "msg": call.Msg, "account": call.Account, "result": "hung",
+				"changed": false, "crashed": false, "err": "no answer after 30 s"})
+			break
+		}
 		after := c.sessionProbeSnapshot(ctx, in, call.Account)
 		ev := Ev{"ev": "Call", "i": i, "inst": call.Inst, "caller": call.Caller, "msg": call.Msg, "account": call.Account, "result": errClass(cerr),
 			"changed": before != after, "crashed": in.Crashed != ""}
